@@ -8,31 +8,44 @@ import PdshVerif.Props.C05
 /-!
 # C03 — every target gets exactly one command; pdsh ends when all are done
 
-Model: the labelled transition system `Dsh/Fan.lean` (dispatcher D, workers W i, POSIX
-mutex/condvar semantics including spurious wake-ups).  `Exec (init v f n) ls s`: the label sequence
-`ls` (the history, oldest first) is an execution from the initial state with wait construct `v`,
-fanout `f`, `n` targets, ending in `s`.  All theorems hold for BOTH wait constructs (`if` as pinned,
-`while` as repaired), every fanout ≥ 1 (only `progress` needs f ≥ 1), every `n`, every label
-sequence: every schedule and any number of spurious wake-ups.
+Models.  `Dsh/Fan.lean`: the labelled transition system of dsh()'s dispatch loop, worker epilogue and drain loop
+(dispatcher D, workers W i, POSIX mutex/condvar semantics including spurious wake-ups) with the worker epilogue as
+in the pinned text (`lock; threadcount--; signal; unlock`).  `Dsh/FanG.lean`: the same LTS with the SIGNALLING
+DISCIPLINE LEFT OPEN — each worker chooses whether its wake-up call comes inside or after the critical section, and
+`pthread_cond_signal` | `pthread_cond_broadcast` is no distinction (one waiter).  `Fan` is the sub-LTS of `FanG` in
+which nobody unlocks first (`Dsh/FanGEmbed.lean: exec_of_fan`).  `Dsh/FanRelay.lean`: `FanG` composed with the relay
+of property C05.  `Exec (init v f n) ls s`: the label sequence `ls` (the history, oldest first) is an execution from
+the initial state with wait construct `v`, fanout `f`, `n` targets, ending in `s`.  All theorems hold for BOTH wait
+constructs (`if` as pinned, `while` as repaired), every fanout ≥ 1 (only `progress` needs f ≥ 1), every `n`, every
+label sequence: every schedule and any number of spurious wake-ups.
 
-* safety: `once_only`, `none_else`, `exit_after_all`, `final_is_end`;
-* liveness: `progress` (until dsh() has returned some NON-spurious operation is enabled: no lost
-  wake-up, no deadlock), `rank_decreases` (every non-spurious step decreases `rank`, a spurious
-  wake-up increases it by at most 2), `steps_bounded` (an execution with k spurious wake-ups has at
-  most 18n + 13 + 3k steps) and `stuck_is_final` — together: every execution with finitely many
-  spurious wake-ups that is continued as long as a non-spurious operation is enabled ends, and it
-  ends with dsh() returned.
+clause of the property                         | pinned discipline (section Pinned) | every discipline (`G.`) | composed
+-----------------------------------------------|------------------------------------|-------------------------|---------
+command started exactly once per target        | `once_only`, `each_op_once`        | `G.once_only`, `G.each_op_once` | `EndToEnd.returns_after_output_delivered` (1)
+no command for anything else                   | `none_else`                        | `G.none_else`           |
+returns only after every command has finished  | `exit_after_all`, `return_after_teardown` | `G.exit_after_all`, `G.return_after_teardown` | (2)
+... and its output has been delivered          | (monitor)                          | (monitor)               | `EndToEnd.returns_after_output_delivered` (3), importing `C05.relay_lossless_any_interleaving`
+nothing happens after the return               | `final_is_end`                     | `G.final_only_late` (only late wake-up calls), `G.final_is_end` |
+no lost completion notification / no deadlock  | `progress`, `progress_enabled`, `stuck_is_final` | `G.progress`, `G.progress_enabled`, `G.stuck_is_final` |
+pdsh ends                                      | `rank_decreases`, `steps_bounded`  | `G.rank_decreases`, `G.steps_bounded` (≤ 18n + 13 + 3k steps with k spurious wake-ups, late calls included) |
 
-The connect outcome is not part of this LTS (a failed connect goes through the same operations); where an
+The trace acceptor (`Driver/FanDrv.lean`, `pdshmodel fan`) runs `FanG.step`; it maps an observed call to a label
+by what the call does in the state it is made in (an unlock before the wake-up call is `unlockFirst`, a signal or
+broadcast after the unlock is `signalAfter`), so the harness recognises the discipline of the code under test by
+behaviour and the evidence records which one it saw.
+
+The connect outcome is not part of these LTS (a failed connect goes through the same operations); where an
 outcome matters (the Timed LTS of C07, the monitors) it is success / failure, never a descriptor: the
 correspondence maps `rcmd_connect() ≥ 0` to success, and the descriptor VALUE the scripted transport returns is
-generated over {0, 1, 2, ≥ 3} (harness key `lowfds`: pdsh started with stdin / all of stdio closed, the lowest
-free number is handed out first and given back by close()); `checks/c03.py` also runs the real `pdsh -R exec`
-with descriptor 0 closed.
+generated over {0, 1, 2, ≥ 3} (harness key `lowfds`, pinned cases in every run); `checks/c03.py` also runs the real
+`pdsh -R exec` with descriptor 0 closed.
 
-Not proved here: that dsh.c refines the LTS (trace correspondence of `checks/c03.py`); fairness of
-the real scheduler; workers whose command never ends, `pthread_create` failure and cancellation
-(^C^Z, C20) are outside the model; fanout 0 (the dispatcher then waits forever: C18).
+Not proved here: that dsh.c refines the LTS (trace correspondence of `checks/c03.py`: every run's projected trace is
+replayed through `FanG.step`, incl. the pdcp worker `_rcp_thread`); fairness of the real scheduler; workers whose
+command never ends (C07: `immortal_never_returns`), `pthread_create` failure and cancellation (^C^Z, C20) are
+outside these models; fanout 0 (the dispatcher then waits forever: C18); in `EndToEnd` the relay events are
+abstract (chunks arrive while the worker is in its read loop), a worker that gives up on its host at a timeout is
+the Timed LTS's business (C07 `healthy_complete`).
 -/
 namespace PdshVerif.Props.C03
 section Pinned
